@@ -36,6 +36,13 @@ def add_extra_keys(draw, v, n=1):
 
 def put_ellipsis(draw, v):
     ps = list(values.paths(v))
+    dicts = [p for p in ps if isinstance(values.get_at(v, p), dict)]
+    if dicts and draw(st.integers(0, 2)) == 0:
+        # `...` as a *key* (with a plain value, or as the `...: ...` entry of schema notation)
+        p = draw(st.sampled_from(dicts))
+        d = dict(values.get_at(v, p))
+        d[...] = draw(st.one_of(values.junk_scalar, st.just(...)))
+        return values.replace_at(v, p, d)
     p = draw(st.sampled_from(ps))
     return values.replace_at(v, p, ...)
 
@@ -63,7 +70,106 @@ def has_nan(v):
 
 
 PLAIN_KINDS = ["complete", "complete", "partial", "partial", "partial", "near", "perturb", "extra-keys",
-               "dict-subclass"]
+               "dict-subclass", "tuple"]
+
+
+def tuple_somewhere(draw, v):
+    """one list of the value (or a scalar pair next to it) written as a tuple: not a kind of value any schema
+    accepts or from_native converts"""
+    ps = [p for p in values.paths(v) if isinstance(values.get_at(v, p), list)]
+    if not ps or draw(st.integers(0, 3)) == 0:
+        ps2 = list(values.paths(v))
+        return values.replace_at(v, draw(st.sampled_from(ps2)), draw(st.sampled_from([(1, 2), (), ("a", "b"), (None,)])))
+    p = draw(st.sampled_from(ps))
+    return values.replace_at(v, p, tuple(values.get_at(v, p)))
+
+
+def realize(case):
+    """live value of a case; case["alias"] = [p, q] puts the very object found at path p at path q as well
+    (one object at two positions of the value)"""
+    v = values.realize(case["value"])
+    al = case.get("alias")
+    if al:
+        p, q = [tuple(tuple(step) for step in path) for path in al]
+        v = _set_at(v, q, values.get_at(v, p))
+    return v
+
+
+def _set_at(v, path, new):
+    """in place (identity of everything else, and of `new`, is kept)"""
+    if not path:
+        return new
+    cur = v
+    for kind, k in path[:-1]:
+        cur = cur[k]
+    cur[path[-1][1]] = new
+    return v
+
+
+@st.composite
+def window_case(draw):
+    """`[..., a, b, ...]` whose first declared element is a dict; the value holds, before the real window, a
+    decoy: a (partial) dict that fits the first element followed by something that does not fit the second"""
+    member = specs.spec_strategy(depth=0, sat=True, patterns=False)
+    keys = draw(st.lists(st.sampled_from(["id", "name", "a", "b"]), min_size=2, max_size=3, unique=True))
+    first = {"t": "dict", "entries": [{"key": k, "opt": draw(st.integers(0, 3)) == 0, "spec": draw(member)} for k in keys],
+             "relaxed": draw(st.integers(0, 3)) == 0}
+    rest = draw(st.lists(member, min_size=1, max_size=2))
+    spec = {"t": "list", "form": "contains", "elems": [first] + rest}
+    try:
+        body = [draw(values.conforming(e)) for e in spec["elems"]]
+        decoy_first = draw(values.conforming(first))
+    except values.Unsat:
+        return None
+    decoy = [project(draw, decoy_first, p=1)] + body[1:-1] + [draw(st.sampled_from([[], {"zz": 1}, "decoy", None]))]
+    shape = draw(st.sampled_from(["decoy-first", "decoy-first", "decoy-last", "both"]))
+    pad = [draw(values.junk_scalar) for _ in range(draw(st.integers(0, 2)))]
+    if shape == "decoy-first":
+        full = pad + decoy + body
+    elif shape == "decoy-last":
+        full = pad + body + decoy[:-1]          # the value ends inside a window that cannot be completed
+    else:
+        full = decoy + body + decoy[:-1]
+    v = list(full)
+    if draw(st.booleans()):
+        i = full.index(body[0]) if body[0] in full else None
+        if i is not None:
+            v[i] = project(draw, body[0], p=3)
+    return {"spec": spec, "value": v, "full": full, "kind": "decoy-window", "rng": draw(rng.script_strategy(30)),
+            "share": False}
+
+
+@st.composite
+def aliased_case(draw):
+    """two positions with different schemas that both take one and the same (partial) container object"""
+    from .props.c15 import _variant
+    opts = dict(alias=False, patterns=False, custom=False, derived=False)
+    a = draw(st.one_of(specs.dict_spec(1, True, opts), specs.dict_spec(1, True, opts), specs.list_spec(1, True, opts)))
+    b = _variant(draw, a)
+    if b is None or any(n["t"] == "alias" for n, _ in specs.walk(b)):
+        b = a
+    if draw(st.booleans()):
+        a, b = b, a
+    try:
+        x = draw(values.conforming(a))
+    except values.Unsat:
+        return None
+    x = project(draw, x, p=draw(st.sampled_from([1, 2, 6])))
+    wrap = draw(st.sampled_from(["dict", "list", "typed+dict"]))
+    if wrap == "dict":
+        spec = {"t": "dict", "entries": [{"key": "first", "opt": False, "spec": a}, {"key": "second", "opt": draw(st.booleans()), "spec": b}],
+                "relaxed": False}
+        v, p, q = {"first": x, "second": x}, [["k", "first"]], [["k", "second"]]
+    elif wrap == "list":
+        spec = {"t": "list", "form": "exact", "elems": [a, b]}
+        v, p, q = [x, x], [["i", 0]], [["i", 1]]
+    else:
+        spec = {"t": "dict", "entries": [{"key": "items", "opt": False, "spec": {"t": "list", "form": "typed", "elem": a}},
+                                        {"key": "main", "opt": False, "spec": b}], "relaxed": draw(st.booleans())}
+        v, p, q = {"items": [x], "main": x}, [["k", "items"], ["i", 0]], [["k", "main"]]
+    return {"spec": spec, "value": v, "full": None, "kind": "aliased-object", "rng": draw(rng.script_strategy(30)),
+            "share": False, "alias": [p, q]}
+
 HOSTILE_KINDS = PLAIN_KINDS + ["zoo", "zoo", "ellipsis", "junk"]
 
 
@@ -71,6 +177,11 @@ HOSTILE_KINDS = PLAIN_KINDS + ["zoo", "zoo", "ellipsis", "junk"]
 def subst_case(draw, kinds=PLAIN_KINDS, sat=True, depth_choices=(0, 1, 1, 2, 2, 3), dict_bias=0):
     depth = draw(st.sampled_from(list(depth_choices)))
     any_of_relaxed = False
+    special = draw(st.integers(0, 11))
+    if special < 2:
+        c = draw(window_case() if special == 0 else aliased_case())
+        if c is not None:
+            return c
     if dict_bias and draw(st.integers(0, 9)) < dict_bias:
         # a declared dict (possibly inside a typed list): the shape partial substitution is about
         opts = dict(alias=True, patterns=True, custom=False, derived=False)
@@ -123,6 +234,8 @@ def subst_case(draw, kinds=PLAIN_KINDS, sat=True, depth_choices=(0, 1, 1, 2, 2, 
             v = values.wrap_dicts(draw, project(draw, full, p=2))
         elif kind == "extra-keys-sparse":
             v = add_extra_keys(draw, project(draw, full, p=1), 1)
+        elif kind == "tuple":
+            v = tuple_somewhere(draw, project(draw, full, p=4))
         elif kind == "zoo":
             v, _ = draw(values.inject(full))
         elif kind == "ellipsis":
